@@ -24,7 +24,7 @@ LEVEL_TEXT = ('For every deterministic built-in observation function (direct and
               'random non-square grids up to 9x9 and areas up to extent 5 are sampled.')
 LEVEL_NOTE = 'Trusted: obsgen.rotate_state_cw (cell (y,x)->(x,h-1-y), heading turns right). Deterministic functions only.'
 SHARDS = {'quick': 4, 'thorough': 16}
-BUDGET_S = {'quick': 60, 'thorough': 600}
+BUDGET_S = {'quick': 300, 'thorough': 2400}
 RULE = ('case = (state, view area, deterministic observation function) with its three rotated copies. non-trivial = grid or '
         'view not square, or view asymmetric, or at least one opaque cell inside the view; distinct by (function, area, deep '
         'state encoding).')
